@@ -522,6 +522,21 @@ def guarded_check(solver, timeout_ms):
         t.cancel()
 
 
+def _term_size_exceeds(t, cap):
+    seen = set()
+    stack = [t]
+    while stack:
+        e = stack.pop()
+        i = e.get_id()
+        if i in seen:
+            continue
+        seen.add(i)
+        if len(seen) > cap:
+            return True
+        stack.extend(e.children())
+    return False
+
+
 class Ctx:
     def __init__(self, timeout_ms=5000, name=""):
         self.name = name
@@ -610,7 +625,10 @@ class Ctx:
     def entails(self, f, timeout_ms=None):
         if z3.is_true(f):
             return True
-        sf = z3.simplify(f)
+        if getattr(self, "poly_first", False) and _term_size_exceeds(f, 20000):
+            sf = f  # z3.simplify has no time limit; very large terms go straight to the (time-limited) solver
+        else:
+            sf = z3.simplify(f)
         if z3.is_true(sf):
             return True
         if z3.is_false(sf):
@@ -625,6 +643,15 @@ class Ctx:
             return False
         if not self.maybe_equal(a, b):
             return False
+        if getattr(self, "poly_first", False):
+            # opt-in: decide pure polynomial identities by exact expansion before asking the solver
+            try:
+                from .poly import expand
+                if not expand(d.num_term(), limit=200000, budget_s=getattr(self, 'poly_budget', 8.0)):
+                    self.resolutions.append(("entails", "polynomial-identity"))
+                    return True
+            except Exception:
+                pass
         return self.entails(d.num_term() == 0, timeout_ms)
 
     # ---- numeric pre-filter for candidate selection (never decides anything: a candidate that fails the
@@ -721,6 +748,8 @@ class Ctx:
             self.fresh_sqrts.append((a, res))
             self.axiom(y >= 0, (y * y) * a.den_term() == a.num_term())
             self.light.add(y >= 0)
+            if getattr(self, "sign_facts", False):  # opt-in: a positive radicand has a positive root
+                self.light.add(z3.Implies(V.gt(a, 0), y > 0))
             V.SQRT_ATOMS[y.get_id()] = (y, a)  # holding y keeps its id from being reused
             self.defs.append(("sqrt", V.ge(a, 0)))
             self.resolutions.append(("sqrt", "fresh"))
@@ -848,6 +877,11 @@ class Ctx:
             c = self.sqrt(1 - x * x)
             pi = self.pi()
             self.axiom(V.ge(y, -pi / 2), V.le(y, pi / 2))
+            if getattr(self, "sign_facts", False):  # opt-in: sign of asin(x) = sign of x (also in the light context)
+                fs = [z3.Implies(V.gt(x, 0), V.gt(y, 0)), z3.Implies(V.lt(x, 0), V.lt(y, 0)), z3.Implies(v_eq(x, 0), v_eq(y, 0))]
+                self.axiom(*fs)
+                for f_ in fs:
+                    self.light.add(f_)
             self.defs.append(("asin", z3.And(V.le(x, 1), V.ge(x, -1))))
             self.angles.append(Angle(y, sin=x, cos=c, flags={"asin"}, name="asin-fresh"))
             self.resolutions.append(("asin", "fresh"))
@@ -1320,8 +1354,16 @@ class IteDomain:
 
     # transcendental functions are uninterpreted (congruence only): two sides that apply the same function to
     # provably equal arguments agree, anything else is left open
+    EVEN = ("cos", "cosh")
+    ODD = ("sin", "tan", "asin", "atan", "sinh", "tanh", "asinh", "atanh")
+    parity = False  # opt-in: also use f(-a) = +-f(a) (CasADi folds cos(-u) to cos(u))
+
     def _uf(self, name, *a):
         f = z3.Function(f"uf_{name}", *([z3.RealSort()] * (len(a) + 1)))
+        if self.parity and len(a) == 1 and name in self.EVEN + self.ODD:
+            x = self.r(a[0])
+            ax = z3.If(x >= 0, x, -x)
+            return ("r", f(ax) if name in self.EVEN else z3.If(x >= 0, f(ax), -f(ax)))
         return ("r", f(*[self.r(x) for x in a]))
 
     def truth(self, x):
